@@ -61,7 +61,8 @@ prop("C04", "other",
      "own request_id, RequestId::check is equality, the id is written only in get_next (masked to 31 bits) once per "
      "send before the PDU is built; in _recv_inner the None arm can only return through another recv_socket and a "
      "decode failure never re-enters the loop. Decides every structural clause; nothing numeric is involved "
-     "(the 2^-31 id collision is outside any technique).",
+     "(the 2^-31 id collision is outside any technique)."
+     " Added in round 5: nothing after the Ok edge of recv() ends in Err (every received datagram reaches the decoder); the decode-error rows of the exception table.",
      [("C04.accept", c04.accept), ("C04.check", c04.pdu_check), ("C04.skip", c04.skip_loop),
       ("C04.single", c04.single_id), ("C04.report", c04.report_only_v3), ("C04.version", c04.version_check), ("C04.adopt", only(v3.adopt, "only-when")), ("C04.retry", only(py.timeouts, "async_client._recv")), ("C04.exc", only(c07.exc_table, "InvalidVersion", "TrailingData", "InvalidPdu", "InvalidTagFormat", "UnexpectedTag", "Incomplete")), ("C04.recv", only(c18.arm, "received-is-delivered"))])
 
@@ -76,7 +77,8 @@ prop("C07", "other",
      "variant) with key/value provenance (dict[var.oid] = var.value of the same varbind), the SnmpError -> PyErr table "
      "(18 variants) against the documented classes and the create_exception! base classes; Python AST: every blocking "
      "socket call of the sync client maps BlockingIOError to TimeoutError. Every cell of the tables is decided; what is "
-     "not decided is the identity of the Python objects pyo3 builds from the decoded values (see C02).",
+     "not decided is the identity of the Python objects pyo3 builds from the decoded values (see C02)."
+     " Added in round 5: a data value is stored on every way through the get_many loop body (no way round set_item); relative-OID base is the preceding varbind.",
      [("C07.get", c07.get_table), ("C07.many", c07.many_table), ("C07.exc", c07.exc_table), ("C07.py", py.blocking_wrapped), ("C07.report", only(c04.pdu_check, "Report")), ("C07.sib", only(crypto.sockets_sibling, pred=lambda k: k.endswith(_GETS))), ("C07.reject", c04.only_listed_rejections), ("C07.pass", only(py.passthrough, "result passed through")), ("C07.async", only(py.timeouts, "only-BlockingIOError-retried")), ("C07.relbase", c07.relative_base)])
 
 from .rules import c06  # noqa: E402
@@ -89,7 +91,8 @@ prop("C06", "other",
      "subtree x 17 value kinds) are extracted by abstract execution and compared with the property; a result tuple is "
      "built only past the accepting edge of set_next_oid for the same varbind; after the out-of-subtree marker the reply "
      "loop is not re-entered; Python: StopAsyncIteration -> StopIteration, None sentinel, empty list. Decides every "
-     "clause but one: that cmp_arcs implements numeric OID order is only checked structurally (per sub-identifier).",
+     "clause but one: that cmp_arcs implements numeric OID order is only checked structurally (per sub-identifier)."
+     " Added in round 5: the closure of split_inclusive in cmp_arcs equals `octet & 0x80 == 0` on all 256 octets; zero-copy decoders total.",
      [("C06.contain", c06.contain), ("C06.mono", c06.mono), ("C06.cont", c06.cont), ("C06.stop", c06.stop_tables),
       ("C06.py", py.stop_mapping), ("C06.pybuf", py.bulk_buffer), ("C06.store", numrules.oid_store), ("C06.oidenc", codec.oid_text), ("C06.oidtext", codec.oid_print), ("C06.reject", c06.next_oid_rejections), ("C06.iter", py.passthrough), ("C06.sib", only(crypto.sockets_sibling, *_WALKS)), ("C06.total", codec.zero_copy_total)])
 
@@ -99,7 +102,8 @@ prop("C05", "other",
      "(forward iteration and append in Rust; front pop, None sentinel, refill only when empty in Python, sync and async), "
      "async send_X/recv_X pairing with the same iterator context, fetch() choosing getbulk iff bulk is allowed and never "
      "on v1. Necessary conditions only: that the walk returns exactly the MIB entries below the base, each once, is a "
-     "relation between agent and client histories and is NOT decided statically.",
+     "relation between agent and client histories and is NOT decided statically."
+     " Added in round 5: zero-copy decoders total (an added OID validation ends a walk), literal INTEGER range of the GETBULK counters, session defaults set once.",
      [("C05.contain", c06.contain), ("C05.mono", c06.mono), ("C05.cont", c06.cont), ("C05.step", c06.stop_tables),
       ("C05.pybuf", py.bulk_buffer), ("C05.pystop", py.stop_mapping), ("C05.async", py.async_pairs), ("C05.fetch", py.fetch), ("C05.store", numrules.oid_store), ("C05.oidenc", codec.oid_text), ("C05.oidtext", codec.oid_print), ("C05.reject", c06.next_oid_rejections), ("C05.iter", only(py.passthrough, "iter__")),
       ("C05.sib", only(crypto.sockets_sibling, *_WALKS)), ("C05.total", codec.zero_copy_total), ("C05.defaults", py.session_defaults), ("C05.intlit", crypto.literal_int_tlv)])
@@ -121,7 +125,8 @@ prop("C10", "other",
      "a digest under self.auth_key (C10.mac), by msg.flag_auth (C10.flag), and a plaintext scoped PDU must be refused when "
      "privacy is configured (C10.priv); a failed decrypt never delivers and decrypt receives this message's data and USM "
      "(C10.dec). The first three mechanisms are absent from the code: they are recorded as known findings (a repair needs "
-     "the raw datagram in unwrap_pdu and changes the SnmpSocket trait). MAC byte equality itself is not decided.",
+     "the raw datagram in unwrap_pdu and changes the SnmpSocket trait). MAC byte equality itself is not decided."
+     " Added in round 5: NoPriv::decrypt has no Ok exit; engine id / boots / time are adopted only from a message that passed the header check.",
      [("C10", v3.c10), ("C10.accept", c04.accept), ("C10.check", c04.pdu_check), ("C10.version", c04.version_check), ("C10.py", py.refresh_flow), ("C10.keys", only(v3.keys, "always localised", "every Ok installs", "store is final", "separate digest")), ("C10.adopt", v3.adopt), ("C10.nopriv", crypto.nopriv_refuses)])
 
 prop("C18", "other",
@@ -130,7 +135,8 @@ prop("C18", "other",
      "pass timeout_ns through; recv_socket maps WouldBlock, the error table maps it to BlockingIOError and every blocking "
      "call of the sync client maps that to TimeoutError; the async _recv wraps the whole retry loop in "
      "wait_for(self._timeout) and remaps the asyncio timeout; sync passes int(timeout*NS), async 0. The skip loop of "
-     "_recv_inner tests no deadline (C18.deadline): recorded as a known finding.",
+     "_recv_inner tests no deadline (C18.deadline): recorded as a known finding."
+     " Added in round 5: every received datagram reaches the decoder; _recv_inner is called only inside a closure handed to Python::allow_threads; session engine parameters are adopted only after the header check.",
      [("C18.arm", c18.arm), ("C18.deadline", c18.deadline), ("C18.map", py.blocking_wrapped), ("C18.py", py.timeouts), ("C18.recv-once", c18.recv_loops), ("C18.skip", c04.skip_loop), ("C18.exc", only(c07.exc_table, "WouldBlock", "ConnectionRefused", "SocketError")), ("C18.adopt", only(v3.adopt, "only-when", "-source")), ("C18.gil", c18.gil_released)])
 
 from .rules import numrules  # noqa: E402
@@ -183,7 +189,8 @@ prop("C16", "proof",
      "the result - is an obligation `offset + extent <= h.length`; BerHeader::from_ber guarantees (checked contract) "
      "`length <= len(tail)` and every decode call site satisfies `h.length <= len(i)`. Structural rules: each from_ber returns "
      "&tail[hdr.length..] of the same header parse; decode(tail, &hdr) pairs; all seven try_from (3 messages, USM, 3 PDUs) "
-     "return Ok only across the empty-remainder edge of their enclosing SEQUENCE.",
+     "return Ok only across the empty-remainder edge of their enclosing SEQUENCE."
+     " Added in rounds 4-5: BerHeader.length / .tag never depend on len(input); a function that parses a header itself never hands the uncut remainder to a nested parser; decrypt reserves exactly data.len() octets.",
      [("C16.extent", codec.extent), ("C16.hdr", codec.hdr_contract), ("C16.rest", codec.rest), ("C16.pair", codec.pair),
       ("C16.trailing", codec.trailing), ("C16.lists", codec.list_loops), ("C16.fresh", crypto.priv_fresh), ("C16.hdrext", codec.hdr_extent), ("C16.decrypt", only(crypto.priv_layout, "decrypt")), ("C16.children", codec.bounded_children), ("C01.children", codec.bounded_children)])
 
@@ -193,7 +200,8 @@ prop("C02", "other",
      "2578 / RFC 3416 and the decoders' TAG constants; decode(tail,&hdr) pairing; extent rule of C16 for all decoders; integer "
      "casts on the decode path are widening, stored field types and the Python conversion type match the SMI type; the six "
      "big-endian folds have the canonical step (acc << 8) | octet over take(h.length) (unknown shapes: inconclusive); "
-     "IpAddress octet order; no overflow site in the decoders (shared with C01).",
+     "IpAddress octet order; no overflow site in the decoders (shared with C01)."
+     " Added in rounds 4-5: the zero-copy decoders (OID, RELATIVE-OID, OCTET STRING, Opaque, ObjectDescriptor, SEQUENCE, [n]) have no error exit; in each numeric decoder some read reaches h.length (cover observation of num); an overflow guard before `T << k` refuses only values that overflow; a RELATIVE-OID name is resolved against the preceding varbind.",
      [("C02.dispatch", codec.dispatch), ("C02.pair", codec.pair), ("C02.extent", codec.extent), ("C02.width", codec.width), ("C02.hdr", codec.hdr_reject), ("C02.oidtext", codec.oid_print), ("C02.decrypt", only(crypto.priv_layout, "decrypt")), ("C02.textreject", codec.oid_to_text_rejections),
       ("C02.fold", codec.fold), ("C02.ip", codec.ipaddr), ("C02.sites", codec.hdr_contract), ("C02.shiftguard", codec.shift_guards), ("C02.tail", codec.tail_cover), ("C02.total", codec.zero_copy_total), ("C02.relbase", c07.relative_base)])
 
@@ -202,14 +210,16 @@ prop("C08", "other",
      "between a parsed arc and the encoded octets; 40*first+second proven within 0..119 before the cast; the leading base-128 "
      "group of every arm proven within 1..127 (0..127 for one octet) from the engine's cast facts; parse errors propagate, two "
      "arcs mandatory; every panic site of both conversions discharged; OID text enters only through this conversion and a "
-     "failure returns before the send. NOT decided: print(parse(s)) = s and the base-128 arithmetic of rewritten encoders.",
+     "failure returns before the send. NOT decided: print(parse(s)) = s and the base-128 arithmetic of rewritten encoders."
+     " Added in rounds 4-5: overflow guards exact; the OID decoder is total.",
      [("C08.text", codec.oid_text), ("C08.entry", codec.oid_entry), ("C08.sites", numrules.c08_sites), ("C08.print", codec.oid_print), ("C08.reject", codec.oid_text_rejections), ("C08.arcloop", codec.arc_loop_exits), ("C08.textreject", codec.oid_to_text_rejections), ("C08.handlen", crypto.hand_lengths), ("C08.shiftguard", codec.shift_guards), ("C08.total", codec.zero_copy_total)])
 
 prop("C15", "other",
      "Necessary conditions only (round-trip equality over all i64 / OIDs is NOT decided): no undischarged overflow, negation or "
      "shift site in SnmpInt::push_ber/decode, the OID conversions and push_tag_len (engine `num`); the length-form table of "
      "push_tag_len (short / 0x81 / 0x82 with the octets in order and ensure_size covering them); the fixed encodings (ZERO_BER, "
-     "NULL_BER, EMPTY_BER, version constants) are minimal TLVs; PDU tag tables of encoder and decoder agree with RFC 3416.",
+     "NULL_BER, EMPTY_BER, version constants) are minimal TLVs; PDU tag tables of encoder and decoder agree with RFC 3416."
+     " Added in rounds 4-5: decoded flag_* are bits 0/1/2 of the octet for all 256 values (mirror of the encoder's table); ensure_size refuses only what does not fit; push_tagged / push_tag_len write a header of at least two octets on success, also for empty contents; literal one-octet INTEGER range.",
      [("C15.nowrap", numrules.c15_nowrap), ("C15.len", codec.length_forms), ("C15.hdr", codec.hdr_reject), ("C15.pdu", codec.pdu_tags), ("C15.oid", codec.oid_text), ("C15.nested", crypto.nested_lengths), ("C15.mirror", crypto.layout_mirror), ("C15.dec", only(codec.width, "SnmpInt")), ("C15.handlen", crypto.hand_lengths), ("C15.flags", crypto.msg_flags_decode), ("C15.msgflags", crypto.msg_flags), ("C15.tail", codec.tail_cover), ("C15.shiftguard", codec.shift_guards), ("C15.ensure", only(numrules.c17_sites, "ensure_size", "push_tag_len", "push_tagged")), ("C15.intlit", crypto.literal_int_tlv)])
 
 from .rules import crypto  # noqa: E402
@@ -261,7 +271,8 @@ prop("C03", "other",
      "0, max-repetitions from the caller, request-id, OIDs pushed in reverse into the back-to-front buffer, NULL values); PDU tag "
      "tables; credentials of all three push_pdu derive from the same-named session fields; request id masked to 31 bits and drawn "
      "once per send; length forms; the 39 pymethods bind to the right generic/op; Python: fetch()/bulk rules, version default; no "
-     "undischarged panic site on the send path.",
+     "undischarged panic site on the send path."
+     " Added in round 5: a literal one-octet INTEGER `[02, 01, x as u8]` is reached only with x in 0..=127; OutOfBuffer is constructed by the buffer only; the per-session defaults (max_repetitions, allow_bulk, timeout) are stored in the constructor only.",
      [("C03.fresh", crypto.fresh_buffers), ("C03.priv-fresh", crypto.priv_fresh), ("C03.op", crypto.op_tables), ("C03.pdu", codec.pdu_tags),
       ("C03.cred", v3.cred), ("C03.priv", v3.priv_choice), ("C03.reqid", c04.single_id), ("C03.len", codec.length_forms), ("C03.sib", crypto.sockets_sibling),
       ("C03.keys", v3.keys), ("C03.fetch", py.fetch), ("C03.version", py_version_default), ("C03.nested", crypto.nested_lengths), ("C03.mirror", crypto.layout_mirror), ("C03.nopanic", numrules.c03_nopanic), ("C03.adopt", only(v3.adopt, "on-every-accept", "-source", "learnt-on-accept")), ("C03.msgflags", crypto.msg_flags), ("C03.oidenc", codec.oid_text), ("C03.handlen", crypto.hand_lengths), ("C03.py", py.refresh_flow), ("C03.privlayout", crypto.priv_layout), ("C03.oob", crypto.out_of_buffer_owner), ("C03.defaults", py.session_defaults), ("C03.intlit", crypto.literal_int_tlv)])
@@ -273,7 +284,8 @@ prop("C17", "proof",
      "that carries its in-bounds extent; push_u8_unchecked requires pos >= 1 at each of its 11 call sites; bounds/overflow sites "
      "of buf::* and of the whole send path are obligations. Structural: pos/bookmark/data written only in buf::buffer, skip() "
      "only from the two decrypts (which fill the space before reading), as_slice(n) only from recv_socket with n = recv's result; "
-     "no Result of a push is dropped; send only across push_pdu's Ok edge; OutOfBuffer -> SnmpEncodeError; length-form table.",
+     "no Result of a push is dropped; send only across push_pdu's Ok edge; OutOfBuffer -> SnmpEncodeError; length-form table."
+     " Added in round 5: OutOfBuffer is raised by the buffer alone (no size estimate refuses a request).",
      [("C17.sites", numrules.c17_sites), ("C17.owner", crypto.buffer_owner), ("C17.err", crypto.buffer_err), ("C17.send", crypto.fresh_buffers),
       ("C17.len", codec.length_forms), ("C17.exc", only(c07.exc_table, "OutOfBuffer")), ("C17.priv-fresh", crypto.priv_fresh), ("C17.nested", crypto.nested_lengths), ("C17.handlen", crypto.hand_lengths), ("C17.padconst", crypto.pad_constants), ("C17.oob", crypto.out_of_buffer_owner)])
 
@@ -284,7 +296,8 @@ prop("C09", "other",
      "offset obligation); flag_auth / auth_params derive from has_auth() / placeholder(); constants (ipad 0x36, opad 0x5c, block "
      "64, MAC 12, key size = digest size for both aliases); canonical HMAC shape of DigestAuth::sign (tolerant) and MAC placement "
      "data[offset..offset+SS] = d2[0..SS]; the two key installers refresh the same fields and sign reads only refreshed state; "
-     "engine id / keys consistency rules of C13.",
+     "engine id / keys consistency rules of C13."
+     " Added in round 5: the Python key classes store the key bytes as given (only aligned, never rewritten).",
      [("C09.order", crypto.sign_order), ("C09.const", crypto.hmac_consts), ("C09.shape", crypto.hmac_shape), ("C09.flag", v3.cred),
       ("C09.keys", v3.keys), ("C09.adopt", v3.adopt), ("C09.accept", c04.accept), ("C09.msgflags", crypto.msg_flags), ("C09.dispatch", only(crypto.key_dispatch, "auth::", "AuthKey")), ("C09.chain", crypto.key_chain), ("C09.py", py.refresh_flow), ("C09.user", only(crypto.key_ffi, "user."))])
 
@@ -295,7 +308,8 @@ prop("C11", "other",
      "priv_params[8..]); decrypt builds its IV from the message's USM boots/time/salt with the same layout; the range encrypted in "
      "place equals the range returned (b[..padded_len]) and padded_len is proved in bounds (num); push_pdu passes the session's "
      "scoped PDU, boots and time in this order; the skipped buffer is parsed only after a successful decryption; key localisation "
-     "chain (auth digest, session engine id, own key-type bits).",
+     "chain (auth digest, session engine id, own key-type bits)."
+     " Added in round 5: nested lengths of the encoders (the cipher pre-pushes padding into its private buffer); the adopted engine id is msgAuthoritativeEngineID.",
      [("C11.fresh", crypto.priv_fresh), ("C11.layout", crypto.priv_layout), ("C11.args", v3.cred), ("C11.keys", v3.keys), ("C11.choice", v3.priv_choice), ("C11.msgflags", crypto.msg_flags), ("C11.pad", numrules.des_padding), ("C11.scoped", only(crypto.key_size_guards, "ScopedPdu")), ("C11.padconst", crypto.pad_constants), ("C11.user", only(crypto.key_ffi, "User.")), ("C11.nested", crypto.nested_lengths), ("C11.adopt", only(v3.adopt, "-source", "only-when"))])
 
 prop("C12", "other",
